@@ -145,7 +145,9 @@ def shrink(case):
 MANIFEST = {
     "text": "Theorems (Props/C19.v): for every call history (every linearisation of the mutex-guarded step) over names without FNV collision a point "
             "is accepted iff its timestamp is positive and exceeds every timestamp accepted before for that name; accepted timestamps are strictly "
-            "increasing; a rejected point is counted, reported and forwarded nowhere; leading-dot names share a register. Tie: sequential "
-            "histories compared call by call on a real table; concurrent dispatchers checked by an acceptor of necessary linearizability conditions.",
-    "note": "Partial for concurrency: the real interleavings are sampled and checked by necessary conditions (hist_ok); that Go's mutex makes the step atomic is trusted. FNV collisions are a stated hypothesis.",
+            "increasing; a rejected point is counted, reported and forwarded nowhere; leading-dot names share a register; and for every "
+            "interleaving of any number of dispatchers the per-thread histories pass the concurrent acceptor hist_ok call by call (so the acceptor "
+            "never rejects correct code, whatever the schedule). Tie: sequential histories compared call by call on a real table; concurrent "
+            "dispatchers (stampedes on one name) checked by hist_ok.",
+    "note": "That Go's mutex makes the step atomic is trusted (the model's interleavings are sequences of atomic steps); real interleavings are sampled. FNV collisions are a stated hypothesis.",
 }
